@@ -288,7 +288,7 @@ impl CasObjectInfoV1 {
             // input below 4 GiB: a version-0 footer of >= 2^32 bytes would overflow the u32 arithmetic of fill_in_boundary_offsets in from_v0
             old(reader).bytes().len() <= u32::MAX,
         ensures
-            final(reader).bytes() == old(reader).bytes(),
+            /*@AUX*/ final(reader).bytes() == old(reader).bytes(),
             // the two section offsets of an accepted footer are the ones the layout implies (the reader checks them against its byte counts)
             /*@C07*/ ret matches Ok((s, n)) ==> info_offsets_filled(s),
             // the footer was read from the bytes between the reader's position and its end, and n is its exact length
@@ -299,29 +299,29 @@ impl CasObjectInfoV1 {
             /*@C08*/ ret matches Ok((s, n)) ==> info_wire_ok(s),
 //@ loop 1
             invariant
-                reader.bytes() == old(reader).bytes(),
-                r.n <= r.avail, r.avail == 0 || old(reader).pos() + r.avail <= old(reader).bytes().len(), old(reader).bytes().len() <= u32::MAX,
-                s.ident == CAS_OBJECT_FORMAT_IDENT, s.version == CAS_OBJECT_FORMAT_VERSION, s.ident_hash_section == CAS_OBJECT_FORMAT_IDENT_HASHES, s.hashes_version == CAS_OBJECT_FORMAT_HASHES_VERSION,
-                s.chunk_hashes@.len() == vx_u, s.chunk_boundary_offsets@.len() == 0, s.unpacked_chunk_offsets@.len() == 0,
-                r.n == hash_section_begin_byte_offset + 12 + 32 * vx_u, hash_section_begin_byte_offset == 40,
+                /*@AUX*/ reader.bytes() == old(reader).bytes(),
+                /*@AUX*/ r.n <= r.avail, r.avail == 0 || old(reader).pos() + r.avail <= old(reader).bytes().len(), old(reader).bytes().len() <= u32::MAX,
+                /*@C08*/ s.ident == CAS_OBJECT_FORMAT_IDENT, s.version == CAS_OBJECT_FORMAT_VERSION, s.ident_hash_section == CAS_OBJECT_FORMAT_IDENT_HASHES, s.hashes_version == CAS_OBJECT_FORMAT_HASHES_VERSION,
+                /*@C07,C08*/ s.chunk_hashes@.len() == vx_u, s.chunk_boundary_offsets@.len() == 0, s.unpacked_chunk_offsets@.len() == 0,
+                /*@C07,C08*/ r.n == hash_section_begin_byte_offset + 12 + 32 * vx_u, hash_section_begin_byte_offset == 40,
 //@ loop 2
             invariant
-                reader.bytes() == old(reader).bytes(),
-                r.n <= r.avail, r.avail == 0 || old(reader).pos() + r.avail <= old(reader).bytes().len(), old(reader).bytes().len() <= u32::MAX,
-                s.ident == CAS_OBJECT_FORMAT_IDENT, s.version == CAS_OBJECT_FORMAT_VERSION, s.ident_hash_section == CAS_OBJECT_FORMAT_IDENT_HASHES, s.hashes_version == CAS_OBJECT_FORMAT_HASHES_VERSION,
+                /*@AUX*/ reader.bytes() == old(reader).bytes(),
+                /*@AUX*/ r.n <= r.avail, r.avail == 0 || old(reader).pos() + r.avail <= old(reader).bytes().len(), old(reader).bytes().len() <= u32::MAX,
+                /*@C08*/ s.ident == CAS_OBJECT_FORMAT_IDENT, s.version == CAS_OBJECT_FORMAT_VERSION, s.ident_hash_section == CAS_OBJECT_FORMAT_IDENT_HASHES, s.hashes_version == CAS_OBJECT_FORMAT_HASHES_VERSION,
                 /*@C08*/ s.ident_boundary_section == CAS_OBJECT_FORMAT_IDENT_BOUNDARIES, /*@C08*/ s.boundaries_version == CAS_OBJECT_FORMAT_BOUNDARIES_VERSION,
-                s.chunk_hashes@.len() == num_chunks_2, num_chunks_2 == num_chunks_3, s.chunk_boundary_offsets@.len() == vx_u, s.unpacked_chunk_offsets@.len() == 0,
-                hash_section_begin_byte_offset == 40, boundary_section_begin_byte_offset == 52 + 32 * num_chunks_2,
-                r.n == boundary_section_begin_byte_offset + 12 + 4 * vx_u,
+                /*@C07,C08*/ s.chunk_hashes@.len() == num_chunks_2, num_chunks_2 == num_chunks_3, s.chunk_boundary_offsets@.len() == vx_u, s.unpacked_chunk_offsets@.len() == 0,
+                /*@C07,C08*/ hash_section_begin_byte_offset == 40, boundary_section_begin_byte_offset == 52 + 32 * num_chunks_2,
+                /*@C07,C08*/ r.n == boundary_section_begin_byte_offset + 12 + 4 * vx_u,
 //@ loop 3
             invariant
-                reader.bytes() == old(reader).bytes(),
-                r.n <= r.avail, r.avail == 0 || old(reader).pos() + r.avail <= old(reader).bytes().len(), old(reader).bytes().len() <= u32::MAX,
-                s.ident == CAS_OBJECT_FORMAT_IDENT, s.version == CAS_OBJECT_FORMAT_VERSION, s.ident_hash_section == CAS_OBJECT_FORMAT_IDENT_HASHES, s.hashes_version == CAS_OBJECT_FORMAT_HASHES_VERSION,
+                /*@AUX*/ reader.bytes() == old(reader).bytes(),
+                /*@AUX*/ r.n <= r.avail, r.avail == 0 || old(reader).pos() + r.avail <= old(reader).bytes().len(), old(reader).bytes().len() <= u32::MAX,
+                /*@C08*/ s.ident == CAS_OBJECT_FORMAT_IDENT, s.version == CAS_OBJECT_FORMAT_VERSION, s.ident_hash_section == CAS_OBJECT_FORMAT_IDENT_HASHES, s.hashes_version == CAS_OBJECT_FORMAT_HASHES_VERSION,
                 /*@C08*/ s.ident_boundary_section == CAS_OBJECT_FORMAT_IDENT_BOUNDARIES, /*@C08*/ s.boundaries_version == CAS_OBJECT_FORMAT_BOUNDARIES_VERSION,
-                s.chunk_hashes@.len() == num_chunks_2, num_chunks_2 == num_chunks_3, s.chunk_boundary_offsets@.len() == num_chunks_3, s.unpacked_chunk_offsets@.len() == vx_u,
-                hash_section_begin_byte_offset == 40, boundary_section_begin_byte_offset == 52 + 32 * num_chunks_2,
-                r.n == boundary_section_begin_byte_offset + 12 + 4 * num_chunks_3 + 4 * vx_u,
+                /*@C07,C08*/ s.chunk_hashes@.len() == num_chunks_2, num_chunks_2 == num_chunks_3, s.chunk_boundary_offsets@.len() == num_chunks_3, s.unpacked_chunk_offsets@.len() == vx_u,
+                /*@C07,C08*/ hash_section_begin_byte_offset == 40, boundary_section_begin_byte_offset == 52 + 32 * num_chunks_2,
+                /*@C07,C08*/ r.n == boundary_section_begin_byte_offset + 12 + 4 * num_chunks_3 + 4 * vx_u,
 //@ end
 }
 
@@ -350,21 +350,21 @@ impl CasObjectInfoV1 {
         // (no bound on the untrusted on-wire `boundary_section_offset_from_end`: since e1bd685 the `+ 4` is a checked_add that rejects)
         requires old(reader).bytes().len() <= u32::MAX,
         ensures
-            final(reader).bytes() == old(reader).bytes(),
+            /*@AUX*/ final(reader).bytes() == old(reader).bytes(),
             /*@C07*/ ret matches Ok((s, n)) ==> s.chunk_boundary_offsets@.len() == s.num_chunks && s.unpacked_chunk_offsets@.len() == s.num_chunks
                 && s.boundary_section_offset_from_end == boundary_section_len(s.num_chunks as nat, s.num_chunks as nat),
 //@ after `for vx_u in 0..num_chunks_boundaries_section` #1
             invariant
-                reader.bytes() == old(reader).bytes(), old(reader).bytes().len() <= u32::MAX,
-                r.n <= r.avail, r.avail <= old(reader).bytes().len(),
-                s.chunk_hashes@.len() == 0, s.chunk_boundary_offsets@.len() == vx_u, s.unpacked_chunk_offsets@.len() == 0,
-                r.n == 12 + 4 * vx_u,
+                /*@AUX*/ reader.bytes() == old(reader).bytes(), old(reader).bytes().len() <= u32::MAX,
+                /*@AUX*/ r.n <= r.avail, r.avail <= old(reader).bytes().len(),
+                /*@C07,C08*/ s.chunk_hashes@.len() == 0, s.chunk_boundary_offsets@.len() == vx_u, s.unpacked_chunk_offsets@.len() == 0,
+                /*@C07,C08*/ r.n == 12 + 4 * vx_u,
 //@ after `for vx_u in 0..num_chunks_boundaries_section` #2
             invariant
-                reader.bytes() == old(reader).bytes(), old(reader).bytes().len() <= u32::MAX,
-                r.n <= r.avail, r.avail <= old(reader).bytes().len(),
-                s.chunk_hashes@.len() == 0, s.chunk_boundary_offsets@.len() == num_chunks_boundaries_section, s.unpacked_chunk_offsets@.len() == vx_u,
-                r.n == 12 + 4 * num_chunks_boundaries_section + 4 * vx_u,
+                /*@AUX*/ reader.bytes() == old(reader).bytes(), old(reader).bytes().len() <= u32::MAX,
+                /*@AUX*/ r.n <= r.avail, r.avail <= old(reader).bytes().len(),
+                /*@C07,C08*/ s.chunk_hashes@.len() == 0, s.chunk_boundary_offsets@.len() == num_chunks_boundaries_section, s.unpacked_chunk_offsets@.len() == vx_u,
+                /*@C07,C08*/ r.n == 12 + 4 * num_chunks_boundaries_section + 4 * vx_u,
 //@ end
 }
 
@@ -407,35 +407,35 @@ impl CasObjectInfoV1 {
 //@ contract
         requires old(reader).bytes().len() + 8 <= u32::MAX,
         ensures
-            final(reader).bytes() == old(reader).bytes(),
+            /*@AUX*/ final(reader).bytes() == old(reader).bytes(),
             /*@C07*/ ret matches Ok((s, n)) ==> info_offsets_filled(s),
             /*@C08*/ ret matches Ok((s, n)) ==> info_tables_ok(s),
             /*@C08*/ ret matches Ok((s, n)) ==> info_wire_ok(s) && s.boundaries_version == CAS_OBJECT_FORMAT_BOUNDARIES_VERSION,
 //@ loop 1
             invariant
-                reader.bytes() == old(reader).bytes(), old(reader).bytes().len() + 8 <= u32::MAX,
-                r.n <= r.avail, r.avail <= old(reader).bytes().len(),
-                s.ident == CAS_OBJECT_FORMAT_IDENT, s.version == CAS_OBJECT_FORMAT_VERSION, s.ident_hash_section == CAS_OBJECT_FORMAT_IDENT_HASHES, s.hashes_version == CAS_OBJECT_FORMAT_HASHES_VERSION,
-                s.chunk_hashes@.len() == vx_u, s.chunk_boundary_offsets@.len() == 0, s.unpacked_chunk_offsets@.len() == 0,
-                r.n == hash_section_begin_byte_offset + 12 + 32 * vx_u, hash_section_begin_byte_offset == 32,
+                /*@AUX*/ reader.bytes() == old(reader).bytes(), old(reader).bytes().len() + 8 <= u32::MAX,
+                /*@AUX*/ r.n <= r.avail, r.avail <= old(reader).bytes().len(),
+                /*@C08*/ s.ident == CAS_OBJECT_FORMAT_IDENT, s.version == CAS_OBJECT_FORMAT_VERSION, s.ident_hash_section == CAS_OBJECT_FORMAT_IDENT_HASHES, s.hashes_version == CAS_OBJECT_FORMAT_HASHES_VERSION,
+                /*@C07,C08*/ s.chunk_hashes@.len() == vx_u, s.chunk_boundary_offsets@.len() == 0, s.unpacked_chunk_offsets@.len() == 0,
+                /*@C07,C08*/ r.n == hash_section_begin_byte_offset + 12 + 32 * vx_u, hash_section_begin_byte_offset == 32,
 //@ loop 2
             invariant
-                reader.bytes() == old(reader).bytes(), old(reader).bytes().len() + 8 <= u32::MAX,
-                r.n <= r.avail, r.avail <= old(reader).bytes().len(),
-                s.ident == CAS_OBJECT_FORMAT_IDENT, s.version == CAS_OBJECT_FORMAT_VERSION, s.ident_hash_section == CAS_OBJECT_FORMAT_IDENT_HASHES, s.hashes_version == CAS_OBJECT_FORMAT_HASHES_VERSION,
+                /*@AUX*/ reader.bytes() == old(reader).bytes(), old(reader).bytes().len() + 8 <= u32::MAX,
+                /*@AUX*/ r.n <= r.avail, r.avail <= old(reader).bytes().len(),
+                /*@C08*/ s.ident == CAS_OBJECT_FORMAT_IDENT, s.version == CAS_OBJECT_FORMAT_VERSION, s.ident_hash_section == CAS_OBJECT_FORMAT_IDENT_HASHES, s.hashes_version == CAS_OBJECT_FORMAT_HASHES_VERSION,
                 /*@C08*/ s.ident_boundary_section == CAS_OBJECT_FORMAT_IDENT_BOUNDARIES, /*@C08*/ s.boundaries_version == CAS_OBJECT_FORMAT_BOUNDARIES_VERSION,
-                s.chunk_hashes@.len() == num_chunks_2, num_chunks_2 == num_chunks_3, s.chunk_boundary_offsets@.len() == vx_u, s.unpacked_chunk_offsets@.len() == 0,
-                hash_section_begin_byte_offset == 32, boundary_section_begin_byte_offset == 44 + 32 * num_chunks_2,
-                r.n == boundary_section_begin_byte_offset + 12 + 4 * vx_u,
+                /*@C07,C08*/ s.chunk_hashes@.len() == num_chunks_2, num_chunks_2 == num_chunks_3, s.chunk_boundary_offsets@.len() == vx_u, s.unpacked_chunk_offsets@.len() == 0,
+                /*@C07,C08*/ hash_section_begin_byte_offset == 32, boundary_section_begin_byte_offset == 44 + 32 * num_chunks_2,
+                /*@C07,C08*/ r.n == boundary_section_begin_byte_offset + 12 + 4 * vx_u,
 //@ loop 3
             invariant
-                reader.bytes() == old(reader).bytes(), old(reader).bytes().len() + 8 <= u32::MAX,
-                r.n <= r.avail, r.avail <= old(reader).bytes().len(),
-                s.ident == CAS_OBJECT_FORMAT_IDENT, s.version == CAS_OBJECT_FORMAT_VERSION, s.ident_hash_section == CAS_OBJECT_FORMAT_IDENT_HASHES, s.hashes_version == CAS_OBJECT_FORMAT_HASHES_VERSION,
+                /*@AUX*/ reader.bytes() == old(reader).bytes(), old(reader).bytes().len() + 8 <= u32::MAX,
+                /*@AUX*/ r.n <= r.avail, r.avail <= old(reader).bytes().len(),
+                /*@C08*/ s.ident == CAS_OBJECT_FORMAT_IDENT, s.version == CAS_OBJECT_FORMAT_VERSION, s.ident_hash_section == CAS_OBJECT_FORMAT_IDENT_HASHES, s.hashes_version == CAS_OBJECT_FORMAT_HASHES_VERSION,
                 /*@C08*/ s.ident_boundary_section == CAS_OBJECT_FORMAT_IDENT_BOUNDARIES, /*@C08*/ s.boundaries_version == CAS_OBJECT_FORMAT_BOUNDARIES_VERSION,
-                s.chunk_hashes@.len() == num_chunks_2, num_chunks_2 == num_chunks_3, s.chunk_boundary_offsets@.len() == num_chunks_3, s.unpacked_chunk_offsets@.len() == vx_u,
-                hash_section_begin_byte_offset == 32, boundary_section_begin_byte_offset == 44 + 32 * num_chunks_2,
-                r.n == boundary_section_begin_byte_offset + 12 + 4 * num_chunks_3 + 4 * vx_u,
+                /*@C07,C08*/ s.chunk_hashes@.len() == num_chunks_2, num_chunks_2 == num_chunks_3, s.chunk_boundary_offsets@.len() == num_chunks_3, s.unpacked_chunk_offsets@.len() == vx_u,
+                /*@C07,C08*/ hash_section_begin_byte_offset == 32, boundary_section_begin_byte_offset == 44 + 32 * num_chunks_2,
+                /*@C07,C08*/ r.n == boundary_section_begin_byte_offset + 12 + 4 * num_chunks_3 + 4 * vx_u,
 //@ end
 
 //@ extract cas_object/src/cas_object_format.rs in `impl CasObjectInfoV1` fn deserialize_async
@@ -444,7 +444,7 @@ impl CasObjectInfoV1 {
 //@ contract
         requires old(reader).bytes().len() + 8 <= u32::MAX,
         ensures
-            final(reader).bytes() == old(reader).bytes(),
+            /*@AUX*/ final(reader).bytes() == old(reader).bytes(),
             // exactly the postconditions of the synchronous CasObjectInfoV1::deserialize
             /*@C07*/ ret matches Ok((s, n)) ==> info_offsets_filled(s),
             /*@C08*/ ret matches Ok((s, n)) ==> info_tables_ok(s),
@@ -519,7 +519,7 @@ impl CasObject {
 //@ contract
         requires old(reader).bytes().len() + 8 <= u32::MAX,
         ensures
-            final(reader).bytes() == old(reader).bytes(),
+            /*@AUX*/ final(reader).bytes() == old(reader).bytes(),
             // the same facts about `info` as the synchronous CasObject::deserialize
             /*@C08*/ r matches Ok(cas) ==> footer_tables_ok(cas) && info_wire_ok(cas.info),
             /*@C07*/ r matches Ok(cas) ==> info_offsets_filled(cas.info),
@@ -532,7 +532,7 @@ impl CasObject {
 //@ ret r
 //@ contract
         ensures
-            final(reader).bytes() == old(reader).bytes(),
+            /*@AUX*/ final(reader).bytes() == old(reader).bytes(),
             // Ok only if the stream has the 4 trailing bytes; the reader is then at the end
             /*@C08*/ r is Ok ==> old(reader).bytes().len() >= 4 && final(reader).pos() == old(reader).bytes().len(),
 //@ end
@@ -545,7 +545,7 @@ impl CasObject {
             // (input below 4 GiB: precondition of CasObjectInfoV1::deserialize, see there)
             old(reader).bytes().len() <= u32::MAX,
         ensures
-            final(reader).bytes() == old(reader).bytes(),
+            /*@AUX*/ final(reader).bytes() == old(reader).bytes(),
             // Err, or a footer that was parsed from inside the object: the info block [len - 4 - info_length, len - 4) lies within the stream
             // -- for EVERY stream length and EVERY value of the untrusted trailing info_length (no overflow / underflow in the seek arithmetic)
             /*@C08*/ r matches Ok(cas) ==> cas.info_length + 4 <= old(reader).bytes().len() && cas.info_length >= 8,
@@ -565,7 +565,7 @@ impl CasObject {
             // (no precondition on the unpacked total: since commit dce91f9 the u32 accumulation of `unpacked_chunk_offset` is a
             //  `checked_add` that rejects; on the pre-fix code the `+=` overflow obligation fails -- DESIGN 7-d)
         ensures
-            final(reader).bytes() == old(reader).bytes(),
+            /*@AUX*/ final(reader).bytes() == old(reader).bytes(),
             r matches Ok(Some(cas)) ==> ({
                 let b = old(reader).bytes();
                 let n = cas.info.num_chunks as int;
@@ -587,25 +587,26 @@ impl CasObject {
         let ghost b = reader.bytes();
 //@ loop 1
             invariant
-                reader.bytes() == b, b == old(reader).bytes(),
-                b.len() + MAX_3BYTE <= u32::MAX,
-                footer_tables_ok(cas), info_wire_ok(cas.info), cas.info_length + 4 <= b.len(),
-                idx > 0 ==> reader.pos() <= b.len() && reader.pos() == spec_chunk_end(b, cas.chunk_start(idx as int - 1)),
-                hash_chunks@.len() == idx,
-                cumulative_compressed_length == start_offset, start_offset == cas.chunk_start(idx as int),
-                unpacked_chunk_offset == cas.unpacked_sum(b, idx as int),
-                forall|j: int| 0 <= j < idx ==> cas.chunk_consistent(b, j),
-                cas.info.boundaries_version == CAS_OBJECT_FORMAT_BOUNDARIES_VERSION ==> forall|j: int| 0 <= j < idx ==> cas.info.unpacked_chunk_offsets@[j] == cas.unpacked_sum(b, j + 1),
-                chunk_pairs(hash_chunks@) =~= cas.decoded_list(b, idx as int),
+                /*@AUX*/ reader.bytes() == b, b == old(reader).bytes(),
+                /*@AUX*/ b.len() + MAX_3BYTE <= u32::MAX,
+                /*@AUX*/ footer_tables_ok(cas), info_wire_ok(cas.info), cas.info_length + 4 <= b.len(),
+                /*@C08*/ idx > 0 ==> reader.pos() <= b.len() && reader.pos() == spec_chunk_end(b, cas.chunk_start(idx as int - 1)),
+                /*@C06,C08*/ hash_chunks@.len() == idx,
+                /*@C08*/ cumulative_compressed_length == start_offset, start_offset == cas.chunk_start(idx as int),
+                /*@C08*/ unpacked_chunk_offset == cas.unpacked_sum(b, idx as int),
+                /*@C08*/ forall|j: int| 0 <= j < idx ==> cas.chunk_consistent(b, j),
+                /*@C08*/ cas.info.boundaries_version == CAS_OBJECT_FORMAT_BOUNDARIES_VERSION ==> forall|j: int| 0 <= j < idx ==> cas.info.unpacked_chunk_offsets@[j] == cas.unpacked_sum(b, j + 1),
+                /*@C06*/ chunk_pairs(hash_chunks@) =~= cas.decoded_list(b, idx as int),
 //@ before `let chunk_hash`
             let ghost hc0 = hash_chunks@;
 //@ after `length: chunk_uncompressed_length as usize, });`
             proof {
                 assert(hash_chunks@ =~= hc0.push(hash_chunks@[idx as int]));
-                assert forall|i: int| 0 <= i < idx + 1 implies chunk_pairs(hash_chunks@)[i] == cas.decoded_list(b, idx as int + 1)[i] by {
+                // (not a proof convenience: this ties the Chunk just pushed -- its hash and length fields -- to the decoded chunk of the spec list)
+                /*@C06*/ assert forall|i: int| 0 <= i < idx + 1 implies chunk_pairs(hash_chunks@)[i] == cas.decoded_list(b, idx as int + 1)[i] by {
                     if i < idx { assert(chunk_pairs(hc0)[i] == cas.decoded_list(b, idx as int)[i]); }
                 }
-                assert(chunk_pairs(hash_chunks@) =~= cas.decoded_list(b, idx as int + 1));
+                /*@C06*/ assert(chunk_pairs(hash_chunks@) =~= cas.decoded_list(b, idx as int + 1));
             }
 //@ end
 }
@@ -660,14 +661,14 @@ spec fn len_sum(s: Seq<Chunk>, i: int) -> nat decreases i {
         /*@C08*/ r matches Err(e) ==> e is FormatError,
 //@ loop 1
         invariant
-            cas_object_info == &cas_object.info,
-            cas_object_info.chunk_hashes@.len() == chunk_hash_and_size@.len(),
-            forall|i: int| 0 <= i < vx_z ==> cas_object_info.chunk_hashes@[i] == chunk_hash_and_size@[i].hash,
+            /*@AUX*/ cas_object_info == &cas_object.info,
+            /*@C08*/ cas_object_info.chunk_hashes@.len() == chunk_hash_and_size@.len(),
+            /*@C08*/ forall|i: int| 0 <= i < vx_z ==> cas_object_info.chunk_hashes@[i] == chunk_hash_and_size@[i].hash,
 //@ loop 2
         invariant
-            cas_object_info == &cas_object.info,
-            prefixsum == len_sum(chunk_hash_and_size@, vx_z as int),
-            forall|i: int| 0 <= i < vx_z ==> cas_object_info.unpacked_chunk_offsets@[i] == len_sum(chunk_hash_and_size@, i + 1),
+            /*@AUX*/ cas_object_info == &cas_object.info,
+            /*@C08*/ prefixsum == len_sum(chunk_hash_and_size@, vx_z as int),
+            /*@C08*/ forall|i: int| 0 <= i < vx_z ==> cas_object_info.unpacked_chunk_offsets@[i] == len_sum(chunk_hash_and_size@, i + 1),
 //@ end
 
 } // verus!
